@@ -80,6 +80,13 @@ impl<'a, T: ColumnProvider> ExpressionExecutionEngine<'a, T> {
                 }
 
                 if !left_value.is_null() && !right_value.is_null() {
+                    // Values of different types cannot be compared (the derived order would compare the kind of type)
+                    if let (Some(left_type), Some(right_type)) = (left_value.value_type(), right_value.value_type()) {
+                        if left_type != right_type {
+                            return Err(EvaluationError::TypeError(left_type, right_type));
+                        }
+                    }
+
                     match operator {
                         CompareOperator::Equal => Ok(Value::Bool(left_value == right_value)),
                         CompareOperator::NotEqual => Ok(Value::Bool(left_value != right_value)),
